@@ -114,6 +114,37 @@ Section C01.
                    exists c', nm_get i (cs_nodes (nd_cs a')) = Some c' /\ frontier_le c c').
   Proof. exact (quiet_exchange_progress zc zc_len). Qed.
 
+  (* the ACK direction of the same handshake: the initiator's answer to the SYN-ACK starts with a
+     non-empty node delta for the first member the responder lacks, and the responder, whose copy
+     is as its SYN-ACK digest advertised, applies it with strict progress and no regress *)
+  Theorem C01_ack_offers_first_stale : forall now a dgb x ord a' y evs n rest,
+    node_inv a -> delta_wf x ->
+    process_message zc now a (SynAck dgb x) ord = Ok (a', Some (Ack y), evs) ->
+    let mtu := P_MAX_UDP - P_RESERVE_ACK in
+    arrange ord (stale_nodes (nd_cs a') dgb (scheduled now a')) = Some (n :: rest) ->
+    room mtu n ->
+    exists j mv ps dgc dmax,
+      nds y = node_piece n j mv :: ps /\ nonempty_piece n j mv /\
+      In n (stale_nodes (nd_cs a') dgb (scheduled now a')) /\
+      advertised dgb (sn_id n) = (dgc, dmax) /\
+      mk_node_delta (sn_id n) (sn_copy n) dgc dmax j mv = Some (node_piece n j mv) /\
+      Forall nd_bounded ps /\ dlen y <= mtu.
+  Proof. exact (ack_offers_first_stale zc zc_len). Qed.
+
+  Theorem C01_ack_applied_advances : forall now b y n j mv ps dgc dmax r,
+    delta_wf y ->
+    let b0 := update_self_heartbeat b in
+    nds y = node_piece n j mv :: ps ->
+    mk_node_delta (sn_id n) (sn_copy n) dgc dmax j mv = Some (node_piece n j mv) ->
+    (d_kvs (node_piece n j mv) <> [] \/ 0 < d_max (node_piece n j mv)) ->
+    nm_get (sn_id n) (cs_nodes (nd_cs b0)) = Some r -> (c_gc r, c_max r) = (dgc, dmax) ->
+    exists b' evs r',
+      process_message zc now b (Ack y) [] = Ok (b', None, evs) /\
+      nm_get (sn_id n) (cs_nodes (nd_cs b')) = Some r' /\ frontier_lt r r' /\
+      (forall i c, nm_get i (cs_nodes (nd_cs b0)) = Some c ->
+                   exists c', nm_get i (cs_nodes (nd_cs b')) = Some c' /\ frontier_le c c').
+  Proof. exact (ack_applied_advances zc). Qed.
+
   (* the per-member agreement behind it: whatever is offered against the receiver's own frontier
      is never refused as inapplicable, and applying it strictly raises the frontier (C14) *)
   Theorem C01_offer_is_applicable : forall now i s r n mv d,
@@ -204,6 +235,8 @@ Print Assumptions C01_deliverable_iff_ahead.
 Print Assumptions C01_first_stale_member_is_offered.
 Print Assumptions C01_exchange_progress.
 Print Assumptions C01_quiet_exchange_progress.
+Print Assumptions C01_ack_offers_first_stale.
+Print Assumptions C01_ack_applied_advances.
 Print Assumptions C01_offer_is_applicable.
 Print Assumptions C01_frontier_bounded_by_owner.
 Print Assumptions C01_strict_advance_raises_measure.
